@@ -28,6 +28,8 @@ def main():
     wt, out = f"/tmp/seed-{prop}", f"/tmp/seed-{prop}-out"
     if "--wt" in sys.argv:
         wt = sys.argv[sys.argv.index("--wt") + 1]
+    if "--out" in sys.argv:
+        out = sys.argv[sys.argv.index("--out") + 1]
     patch, demo = f"{out}/patch{n}.diff", f"{out}/demo{n}"
     meta = {"property": prop, "n": int(n),
             "source": "independent sub-agent given only the property text and a scratch worktree"}
@@ -42,9 +44,16 @@ def main():
         if os.path.isdir(f"{sd}/demo"):
             shutil.copytree(f"{sd}/demo", demo)
             gmf = f"{demo}/go.mod"
-            if os.path.exists(gmf):
-                t = open(gmf).read().replace("=> /repo", f"=> {wt}")
-                open(gmf, "w").write(t)
+            t = ""
+            for cand in (f"{demo}/go.mod.txt", gmf):
+                if os.path.exists(cand) and os.path.getsize(cand) > 0:
+                    t = open(cand).read(); break
+            if not t.strip():  # nested go.mod files do not survive in /verif: synthesise
+                t = f"module seeddemo/demo{n}\n\ngo 1.23\n\nrequire github.com/mmcloughlin/avo v0.0.0\n\nreplace github.com/mmcloughlin/avo => /repo\n"
+            import re as _re
+            t = _re.sub(r"(github.com/mmcloughlin/avo\s*=>\s*)\S+", lambda m_: m_.group(1) + wt, t)
+            open(gmf, "w").write(t)
+            shutil.copy(f"{wt}/go.sum", f"{demo}/go.sum")
         try:
             meta = json.load(open(f"{sd}/meta.json"))
         except Exception:
@@ -122,6 +131,7 @@ def main():
         gm = f"{dst}/demo/go.mod"
         if os.path.exists(gm):
             open(gm, "w").write(open(gm).read().replace(wt, "/repo"))
+            shutil.copy(gm, gm + ".txt")  # nested go.mod files do not survive in /verif; the .txt copy does
             meta["demo_note"] = ("go.mod replace path rewritten from the scratch worktree to /repo; run with `go test ./...` in "
                                  "demo/ after `git -C /repo apply patch.diff`")
     meta["needs_to_manifest"] = ""
